@@ -4,12 +4,17 @@ use crate::report::Report;
 use crate::{RunCfg, Tier};
 
 pub mod enc_common;
+pub mod c01;
 pub mod c03;
 pub mod c04;
 pub mod c05;
 pub mod c06;
 pub mod c07;
 pub mod c08;
+pub mod c16;
+pub mod c17;
+pub mod c18;
+pub mod c19;
 
 #[derive(Clone, Debug)]
 pub struct Child {
@@ -50,5 +55,5 @@ pub fn floor(rep: &mut Report, cfg: &RunCfg, floor: u64) {
 }
 
 pub fn registry() -> Vec<Mon> {
-    vec![c03::mon(), c04::mon(), c05::mon(), c06::mon(), c07::mon(), c08::mon()]
+    vec![c01::mon(), c03::mon(), c04::mon(), c05::mon(), c06::mon(), c07::mon(), c08::mon(), c16::mon(), c17::mon(), c18::mon(), c19::mon()]
 }
